@@ -237,14 +237,30 @@ def marshal_compressed(ex, a, ins):
     return ex.make_bytes([pre] + [to_byte(xv, 31 - i) for i in range(32)], 'marshalCompressed')
 
 def parse_pubkey(ex, a, ins):
+    """btcec.ParsePubKey: 33 bytes compressed (02/03 || X), 65 bytes uncompressed (04 || X || Y) or hybrid
+    (06/07 || X || Y with the parity of Y in the prefix); coordinates reduced, point on the curve; every other
+    length or prefix is an error (documented contract of the library)"""
     data = a[0]
     bs = ex.read_bytes(data)
-    if len(bs) != 33:
-        raise Unsupported('btcec.ParsePubKey with %d bytes' % len(bs))
-    ok, X, Y = _decompress(ex, 'secp256k1', bs)
-    if not ex.decide(ok):
-        return (NIL, B_err(ex, 'invalid public key'))
-    _decomp_axioms(ex, 'secp256k1', X, Y, bs[0])
+    name = 'secp256k1'
+    p, n = PN[name]
+    P = z3.BitVecVal(p, W)
+    if len(bs) == 33:
+        ok, X, Y = _decompress(ex, name, bs)
+        if not ex.decide(ok):
+            return (NIL, B_err(ex, 'invalid public key'))
+        _decomp_axioms(ex, name, X, Y, bs[0])
+    elif len(bs) == 65:
+        X, Y = tobv(B.from_bytes_ex(ex, bs[1:33]), W), tobv(B.from_bytes_ex(ex, bs[33:]), W)
+        pre = tobv(bs[0], 8)
+        fmt_ok = z3.Or(pre == 4, z3.And(z3.Or(pre == 6, pre == 7), z3.Extract(0, 0, pre) == z3.Extract(0, 0, Y)))
+        note_oncurve(ex, name, X, Y)
+        ok = z3.And(fmt_ok, z3.ULT(X, P), z3.ULT(Y, P), ONCURVE(cid(name), X, Y))
+        if not ex.decide(ok):
+            return (NIL, B_err(ex, 'invalid public key'))
+        note_reduced(ex, X, Y)
+    else:
+        return (NIL, B_err(ex, 'malformed public key: invalid length'))
     o = ex.mem.alloc(8, True, 'btcecPub')
     o.meta = {'xy': (X, Y)}
     return (Ptr(o, 0), None)
@@ -281,7 +297,75 @@ def ref_on_curve(ex, a, ins):
     name = 'P-256' if algo == 0 else 'secp256k1'
     return ONCURVE(cid(name), tobv(B.from_bytes_ex(ex, ex.read_bytes(x)), W), tobv(B.from_bytes_ex(ex, ex.read_bytes(y)), W))
 
+# ---- btcec native secp256k1 route (an alternative verification back end a maintainer may wire in)
+
+def _ftab(ex):
+    return ex.pstate.setdefault('secp_vals', {})
+
+def _set_mod(modulus):
+    def f(ex, a, ins):
+        """SetByteSlice: the first 32 bytes as a big-endian integer, reduced modulo the group order (ModNScalar) /
+        field prime (FieldVal); returns whether the integer was >= the modulus (documented contract)"""
+        p, b = a[0], a[1]
+        bs = ex.read_bytes(b)[:32]
+        v = tobv(B.from_bytes_ex(ex, bs), W) if bs else z3.BitVecVal(0, W)
+        M = z3.BitVecVal(modulus, W)
+        ov = z3.UGE(v, M)
+        _ftab(ex)[(p.obj.id, p.off)] = simp(z3.If(ov, v - M, v))
+        return simp(ov)
+    return f
+
+def secp_new_pubkey(ex, a, ins):
+    X = _ftab(ex).get((a[0].obj.id, a[0].off)); Y = _ftab(ex).get((a[1].obj.id, a[1].off))
+    if X is None or Y is None:
+        raise Unsupported('NewPublicKey on field values that were not set through SetByteSlice')
+    o = ex.mem.alloc(8, True, 'btcecPub')
+    o.meta = {'xy': (X, Y)}
+    return Ptr(o, 0)
+
+def btc_new_signature(ex, a, ins):
+    r = _ftab(ex).get((a[0].obj.id, a[0].off)); s_ = _ftab(ex).get((a[1].obj.id, a[1].off))
+    if r is None or s_ is None:
+        raise Unsupported('NewSignature on scalars that were not set through SetByteSlice')
+    o = ex.mem.alloc(8, True, 'btcecSig')
+    o.meta = {'rs': (r, s_)}
+    return Ptr(o, 0)
+
+def btc_sig_verify(ex, a, ins):
+    """(*ecdsa.Signature).Verify(hash, pubKey): r, s non-zero (they are reduced already) and the ECDSA relation on
+    the leftmost 256 bits of the hash -- the same uninterpreted relation as crypto/ecdsa.Verify"""
+    sig, h, pub = a
+    r, s_ = sig.obj.meta['rs']
+    X, Y = pub.obj.meta['xy']
+    z = hash_to_z(ex.read_bytes(h))
+    name = 'secp256k1'
+    return simp(z3.And(r != 0, s_ != 0, ECDSA_OK(cid(name), tobv(X, W), tobv(Y, W), tobv(z, W), tobv(r, W), tobv(s_, W))))
+
+GEN = {'P-256': (0x6b17d1f2e12c4247f8bce6e563a440f277037d812deb33a0f4a13945d898c296, 0x4fe342e2fe1a7f9b8ee7eb4a7c0f9e162bce33576b315ececbb6406837bf51f5),
+       'secp256k1': (0x79be667ef9dcbbac55a06295ce870b07029bfcdb2dce28d959f2815b16f81798, 0x483ada7726a3c4655da4fbfc0e1108a8fd17b448a68554199c47d08ffb10d4b8)}
+
+def refine_oncurve(ex, m, neg):
+    """counterexamples that need 'some on-curve point': ask for the standard generator, which is a real point
+    (the on-curve predicate is uninterpreted, so the solver's own choice would not be on the curve natively)"""
+    extra = []
+    seen = set()
+    for (name, X, Y) in ex.pstate.get('oncurve_terms', []):
+        if isinstance(X, int) or isinstance(Y, int) or X.get_id() in seen:
+            continue
+        seen.add(X.get_id())
+        try:
+            if not z3.is_true(m.eval(ONCURVE(cid(name), X, Y), model_completion=True)):
+                continue
+        except z3.Z3Exception:
+            continue
+        gx, gy = GEN[name]
+        extra.append(z3.And(X == z3.BitVecVal(gx, W), Y == z3.BitVecVal(gy, W)))
+        break
+    return extra
+
 def install(ex):
+    if refine_oncurve not in ex.model_refiners:
+        ex.model_refiners.append(refine_oncurve)
     S = ex.stubs
     S['github.com/onflow/crypto.refECDSAVerify'] = ref_ecdsa_verify
     S['github.com/onflow/crypto.refOnCurve'] = ref_on_curve
@@ -290,6 +374,15 @@ def install(ex):
             S[n] = hkdf_key
     for p in ('github.com/onflow/crypto', ):
         S[p + '.refHKDF'] = ref_hkdf
+    SECP = 'github.com/decred/dcrd/dcrec/secp256k1/v4'
+    S['(*%s.ModNScalar).SetByteSlice' % SECP] = _set_mod(SECP_N)
+    S['(*%s.FieldVal).SetByteSlice' % SECP] = _set_mod(SECP_P)
+    S[SECP + '.NewPublicKey'] = secp_new_pubkey
+    S['github.com/btcsuite/btcd/btcec/v2.NewPublicKey'] = secp_new_pubkey
+    S['github.com/btcsuite/btcd/btcec/v2/ecdsa.NewSignature'] = btc_new_signature
+    S['(*github.com/btcsuite/btcd/btcec/v2/ecdsa.Signature).Verify'] = btc_sig_verify
+    S['(*%s/ecdsa.Signature).Verify' % SECP] = btc_sig_verify
+    S[SECP + '/ecdsa.NewSignature'] = btc_new_signature
     S['crypto/ecdsa.Sign'] = ecdsa_sign
     S['crypto/ecdsa.Verify'] = ecdsa_verify
     S['crypto/ecdh.P256'] = ecdh_p256
@@ -311,4 +404,5 @@ TRUSTED = ['crypto/hkdf.Key: uninterpreted function of (secret, salt, info, leng
            'crypto/ecdsa.Sign: returns some (r, s) with 1 <= r, s < n satisfying the uninterpreted ECDSA relation for (curve, public key, leftmost 256 bits of the hash)',
            'crypto/ecdsa.Verify: 1 <= r, s < n and the same relation',
            'crypto/ecdh P-256 NewPrivateKey (1 <= d < n), PublicKey().Bytes() (04||X||Y of an uninterpreted derivation, reduced, on curve), NewPublicKey (04 prefix, reduced, on-curve predicate)',
+           'btcec native route: ModNScalar / FieldVal SetByteSlice (reduction modulo n / p with overflow flag), NewPublicKey, ecdsa.NewSignature, Signature.Verify (r, s non-zero and the same uninterpreted ECDSA relation)',
            'btcec S256().ScalarBaseMult / IsOnCurve / ParsePubKey / ToECDSA, elliptic.UnmarshalCompressed / MarshalCompressed: uninterpreted derivation, on-curve predicate and decompression with the documented prefix / range / parity contract']
